@@ -86,8 +86,11 @@ AsFoundTotal(e) ==
     [] e.aligner = "NWAffine" -> Restricted(e)
     [] OTHER -> Optimum(e)
 
-\* <<kind, text>>: kind "ok", "known" (text = key of the recorded finding) or "fail"
-Judge(e) ==
+\* Two verdicts per record, one for each property: <<kind, text>> with kind "ok", "known" (text = key of the
+\* recorded finding) or "fail".
+\* C09: the result is one well-formed path whose pairs carry the scores their letters give, Format agrees, quality
+\* letters change nothing, ill-typed input is an error.
+JudgeC09(e) ==
   IF e.ill THEN
     (IF e.panic # "" THEN <<"fail", "ill-typed input caused a panic: " \o e.panic>>
      ELSE IF e.err = "" THEN <<"fail", "ill-typed input was accepted">> ELSE <<"ok", "">>)
@@ -100,8 +103,16 @@ Judge(e) ==
     \* layer-blind traceback of the affine aligners: the totals are those of the tables, the path is not
     (IF Affine(e) /\ Reported(e) = AsFoundTotal(e) THEN <<"known", "C09/" \o e.aligner \o "/layer-blind-traceback">>
      ELSE <<"fail", "a pair's reported score differs from the score recomputed from the letters">>)
+  ELSE <<"ok", "">>
+
+\* C08: the alignment returned, scored from its letters, reaches the optimum.
+JudgeC08(e) ==
+  IF e.ill \/ e.panic # "" \/ e.err # "" THEN <<"ok", "">>          \* C09's business
+  ELSE IF ~WellFormed(e) THEN <<"fail", "the pairs returned are not an alignment of the two sequences">>
   ELSE IF Recomputed(e) = Optimum(e) THEN <<"ok", "">>
   ELSE IF Recomputed(e) > Optimum(e) THEN <<"fail", "SPEC: alignment scores above the specification's optimum">>
+  \* the path of a layer-blind traceback, scored from its letters, falls short although the table's total was right
+  ELSE IF Affine(e) /\ ~Faithful(e) /\ Reported(e) = AsFoundTotal(e) THEN <<"known", "C08/" \o e.aligner \o "/layer-blind-traceback">>
   \* by cause: the optimum of the three-state model with the right start and end states first, then the
   \* further restrictions of the local and fitted variants
   ELSE IF Affine(e) /\ Recomputed(e) = Restricted(e) THEN <<"known", "C08/" \o e.aligner \o "/no-adjacent-opposite-gaps">>
@@ -109,11 +120,12 @@ Judge(e) ==
   ELSE IF e.aligner = "FittedAffine" /\ Recomputed(e) = AsFoundTotal(e) THEN <<"known", "C08/FittedAffine/start-and-end-states-restricted">>
   ELSE <<"fail", "total score is below the optimum">>
 
+Tag(p, v) == IF v[1] = "fail" THEN <<p \o ": " \o v[2]>> ELSE <<>>
 Step ==
   /\ l <= Len(Trace) /\ l' = l + 1
-  /\ LET v == Judge(Trace[l]) IN
-     /\ fails' = IF v[1] = "fail" THEN Append(fails, <<l, v[2]>>) ELSE fails
-     /\ known' = IF v[1] = "known" THEN Append(known, <<l, v[2]>>) ELSE known
+  /\ LET v9 == JudgeC09(Trace[l])  v8 == JudgeC08(Trace[l]) IN
+     /\ fails' = fails \o [k \in 1..Len(Tag("C09", v9) \o Tag("C08", v8)) |-> <<l, (Tag("C09", v9) \o Tag("C08", v8))[k]>>]
+     /\ known' = known \o (IF v9[1] = "known" THEN <<<<l, v9[2]>>>> ELSE <<>>) \o (IF v8[1] = "known" THEN <<<<l, v8[2]>>>> ELSE <<>>)
 
 TInit == l = 1 /\ fails = <<>> /\ known = <<>>
 TSpec == TInit /\ [][Step]_<<l, fails, known>>
